@@ -1713,6 +1713,9 @@ PINNED = {
 UNARY_OTHER_ARMS = {  # arms of UnaryOperation::exec that are not module calls (pinned text -> constructor)
     "return Err ( ExecStop :: Return ( var ) )": "GReturn",
     "var . into_function ( ) . unwrap ( ) . exec ( interpreter ) ?": "GCallFunction",
+    # S27 repair: the reducers also receive the static type of the operand (read in Model/Exec.v as `sty x`)
+    "sum :: exec ( var , & self . instruction . return_type ( ) ) ?": "GCall M_sum F_exec true",
+    "product :: exec ( var , & self . instruction . return_type ( ) ) ?": "GCall M_product F_exec true",
 }
 
 
